@@ -58,6 +58,7 @@ VPublish(e) ==
      ELSE IF e.newv = 0 \/ e.newv \in GridVersions(srv) \/ e.newv \in others \/ "newv_conflict" \in DOMAIN e THEN Rej("conf_new_version_id")
      ELSE V("", srv, [wr EXCEPT ![e.w] = PublishStart(ws, goal, e.newv, C.fmt)], gh)
 
+Focus == IF "focus" \in DOMAIN Traces[tid].consts THEN Traces[tid].consts.focus ELSE "all"
 VWrite(e) ==
   LET ws == wr[e.w]
       s == e.s
@@ -83,9 +84,11 @@ VWrite(e) ==
      ELSE IF \E x \in Shn : obs[x] # pre[x] /\ ~(x = sh /\ pre[x] \in {seenv, 0} /\ obs[x] = ws.newv) THEN Rej("C12_TAS")
      ELSE IF ~executed /\ obs # pre THEN Rej("conf_failed_request_changed_state")
      ELSE IF executed /\ e.wrote # (st = "ok") THEN Rej("C12_ServerTestAndSet_verdict")
-     ELSE IF executed /\ obs # VerMap(T) THEN Rej("C12_ServerTestAndSet_state")
-     ELSE IF executed /\ ~SameFn(Partial(e.reads), PreReads(srv[s])) THEN Rej("C12_ReadsReflectPrestate")
-     ELSE V("", [srv EXCEPT ![s] = T], [wr EXCEPT ![e.w] = ws2], g2)
+     \* (validated for C47 - consts.focus - a server whose state after the request is not the Spec's is followed from what
+     \* was observed on its disk, so that the publisher's claim is still judged at the end against the real shares)
+     ELSE IF executed /\ obs # VerMap(T) /\ Focus # "C47" THEN Rej("C12_ServerTestAndSet_state")
+     ELSE IF executed /\ obs = VerMap(T) /\ ~SameFn(Partial(e.reads), PreReads(srv[s])) THEN Rej("C12_ReadsReflectPrestate")
+     ELSE V("", [srv EXCEPT ![s] = IF executed /\ obs # VerMap(T) THEN ServerWith(obs) ELSE T], [wr EXCEPT ![e.w] = ws2], g2)
 
 VFinish(e) ==
   LET ws == wr[e.w]
